@@ -364,7 +364,7 @@ def stopP (m : ModId) (stopping : Bool) (leave : Bool := false) : Prog Int := do
 /-- `start(mod, starting)` -/
 def startP (m : ModId) (starting : Bool) : Prog Int := do
   -- init_pubsub_fd: a fresh pipe and its internal source
-  modify fun s => if starting then s.updMod m (fun md => { md with pipe := some [] }) else s
+  modify fun s => if starting then s.updMod m (fun md => { md with pipe := some [], pipeGen := md.pipeGen + 1 }) else s
   modify fun s => manageSrcsAdd s m
   modify fun s => setState (s.updCtxId (s.ctxIdOf m) fun c => { c with running := c.running + 1 }) m .running
   let s ← getSt
@@ -575,7 +575,7 @@ def loopStopP : Prog Int := do
 
 /-- a poll entry as recorded from the implementation -/
 inductive PollEnt
-  | ps (m : ModId)
+  | ps (m : ModId) (gen : Nat)      -- the PS source of the module's `gen`-th pipe
   | src (i : SrcId)
   | tick
   | bad (s : String)
@@ -614,11 +614,12 @@ def recvOneP (p : PollEnt) : Prog Nat := do
         modify fun s => if x.oneshot then removeSrc s x.owner i else s
         pushEvtP x.owner e
         pure 1
-  | .ps m =>
+  | .ps m gen =>
     match s.mods[m]? with
     | none => pure 0
     | some md =>
-      if !md.pipePolled then pure 0
+      -- the entry names the PS source that was polled: after a stop and restart inside this batch it is a dead one
+      if !md.pipePolled || md.pipeGen != gen then pure 0
       else match md.pipe with
       | some (msg :: rest) => do
         modify fun s => s.updMod m fun md => { md with pipe := some rest }
@@ -1030,7 +1031,9 @@ def apiSetTick (ns : Nat) : Prog Int := do
 /-- resolve a recorded poll entry against the current registries -/
 def resolveEnt (s : St) : BatchTok → PollEnt
   | .tick => .tick
-  | .ps h => match s.handles.lookup h with | some m => .ps m | none => .bad h
+  | .ps h => match s.handles.lookup h with
+    | some m => .ps m (match s.mods[m]? with | some md => md.pipeGen | none => 0)
+    | none => .bad h
   | .src kind h key role =>
     match s.handles.lookup h with
     | some m => match findSrc s m kind key role with | some i => .src i | none => .bad h
